@@ -71,7 +71,7 @@ class C18(CheckBase):
     stubbed_components = ['the terminal: fstat()/ioctl(TCGETS) answers on stdout decided by simkernel']
 
     def budget(self, tier):
-        return 700 if tier == 'quick' else 20000
+        return 900 if tier == 'quick' else 20000
 
     def time_cap(self, tier):
         return 600 if tier == 'quick' else 5400
@@ -115,7 +115,41 @@ class C18(CheckBase):
             cmd = c07.CHECK.gen_command(rng, image)
             if cmd[0] in ('extract-files', 'extract-unused'):
                 cmd = ['cat']
+        aimed = False
+        if src == 'genflux' and rng.chance(0.5):
+            # aim the medium damage at the file the command reads: the gap and sync run in front of one data field
+            # on a track the file occupies is wiped, so what the track decoder does next decides whether the
+            # *following* sectors of that track are still found - and that must not depend on the diagnostics
+            s0 = dfswork.surface_of({'surface': image['surfaces'][0]})
+            cands = [(v, f) for v, f in s0.all_files() if f.length > 0 and dfswork.safe_for_cmdline(f)]
+            if cands:
+                v, f = rng.choice(cands)
+                lba = v.origin + f.start
+                last = lba + f.nsectors() - 1
+                # the damaged sector itself is best one the command does not need (a neighbour of the file on the
+                # file's first or last track, or a sector of track 0 other than the catalogue): then only the
+                # decoder's recovery decides the outcome
+                t = rng.choice([lba // s0.spt, last // s0.spt, 0, rng.randint(lba // s0.spt, last // s0.spt)])
+                outside = [r for r in range(s0.spt) if not (lba <= t * s0.spt + r <= last) and not (t == 0 and r < 2)]
+                for _ in range(rng.randint(1, 2)):
+                    rec = rng.choice(outside) if outside and rng.chance(0.8) else rng.below(s0.spt)
+                    op = {'k': 'drop', 'region': rng.choice(['gap2', 'gap2', 'gap2', 'sync', 'datamark']), 'rec': rec, 'off': rng.choice([0, 0, 100, 590]),
+                          'len': rng.choice([48, 600, 2000]), 'v': rng.weighted([(3, 0), (1, 1)])}
+                    if rng.chance(0.6):
+                        # a track that lacks its highest-numbered (or lowest-numbered) record is still usable, one that
+                        # lacks a record in between is not: losing these is survivable, so the recovery path shows
+                        rec = rng.weighted([(5, s0.spt - 1), (2, 0)])
+                        op.update(rec=rec, region='gap2', off=0, len=rng.choice([600, 2000]), v=0)
+                        if fc.get('order') in (None, 'seq') and rng.chance(0.7):
+                            # ... provided another record follows it physically
+                            fc['order'] = rng.choice(['skew', 'interleave2', 'random'])
+                    image['damage'].setdefault('0:%d' % t, []).append(op)
+                cmd = [rng.choice(['type', 'dump', 'list']), dfswork.fsp(v, f, 0, 'full')]
+                aimed = True
         variants = []
+        if aimed:
+            # options take effect in command-line order: only a --verbose in front of --file reaches the track decoder
+            variants.append({'k': 'diag', 'opts': ['--verbose'], 'pos': 'pre'})
         for _ in range(rng.randint(2, 4)):
             k = rng.weighted([(4, 'diag'), (3, 'ui'), (3, 'columns'), (3, 'noise'), (2, 'order')])
             v = {'k': k}
